@@ -400,6 +400,10 @@ fn exec_inner(line: &str) -> String {
             let a = h!(a);
             by_enc!(*e, hash, &a)
         }
+        ["stdutf8", s] => {
+            let b = h!(s);
+            b01(std::str::from_utf8(&b).is_ok()).into()
+        }
         ["stdcomps", s] => {
             // real std::path on a Unix host: validates Spec/StdSpec.lean, not the crate
             use std::os::unix::ffi::OsStrExt;
